@@ -198,6 +198,12 @@ def impl(case):
             pf = _fit_predict(kind, params, coords, data, weights, (iq[0].astype(float), iq[1].astype(float)))
             pi = _fit_predict(kind, params, coords, data, weights, iq)
             res["int-query"] = [[x.ravel().tolist() for x in pf], [x.ravel().tolist() for x in pi]]
+            # mixed dtypes: one coordinate integer-typed, the other float with fractional values
+            Eb, Nb = np.array(es), np.array(ns)
+            for nm, (ce, cn) in {"int-east+frac-north": (Eb.astype("int64"), Nb + 0.25), "frac-east+int-north": (Eb - 0.375, Nb.astype("int32"))}.items():
+                pm = _fit_predict(kind, params, (ce, cn), data, weights, (qE, qN))
+                pr = _fit_predict(kind, params, (ce.astype(float), cn.astype(float)), data, weights, (qE, qN))
+                res["mixed:" + nm] = [[x.ravel().tolist() for x in pm], [x.ravel().tolist() for x in pr]]
             if kind in LINEAR:
                 vec = kind in VEC
                 E, N = np.array(es), np.array(ns)
@@ -241,7 +247,7 @@ def compare(case, io, mo):
     tol = _tol(case)
     sc = max(1.0, max(abs(v) for v in pred_m))
     for name, p in io[1].items():
-        if name in ("int-query", "linearity"):
+        if name in ("int-query", "linearity") or name.startswith("mixed:"):
             continue
         for x, y in zip(p[0], pred_m):
             if not np.isfinite(x) and not np.isfinite(y):
@@ -259,6 +265,12 @@ def oracle(case, io):
     base = np.array(res["base"])
     sc = max(1.0, float(np.nanmax(np.abs(base)))) if np.any(np.isfinite(base)) else 1.0
     for name, p in res.items():
+        if name.startswith("mixed:"):
+            pm, pr = np.array(p[0]), np.array(p[1])
+            if not np.allclose(pm, pr, rtol=0, atol=tol * sc, equal_nan=True):
+                return (f"{case['args'][0]} {case['args'][1]}: integer-typed coordinates ({name[6:]}) change the prediction "
+                        f"(max difference {np.nanmax(np.abs(pm - pr))})")
+            continue
         if name in ("base", "int-query", "linearity"):
             continue
         p = np.array(p)
